@@ -84,7 +84,9 @@ def build_expr(af, e, pool):
     if t == "coll":
         items = []
         for k, sub in e["items"]:
-            if sub["t"] == "copy":
+            if sub["t"] == "alias":          # opt-in: the same object under a second key
+                items.append((k, items[sub["of"]][1]))
+            elif sub["t"] == "copy":
                 m = items[sub["of"]][1].copy()
                 for arg, newc in sub["set"]:
                     setattr(m, arg, build_expr(af, newc, pool))
